@@ -80,8 +80,10 @@ def gen_case(ctx, k, P):
         if all(v == 0 for v in bw) and n: bw[0] = Fraction(1)
         xw = rvec(rng, n) if rng.random() < 0.6 else [Fraction(0)] * n
         vecs = [x0, b, xw, bw]; hist = [("S", 2, 3, rng.choice([1, 2, 5, 12, 40])), ("SI", 0, 1, maxit)]; kop = 1
+    nores = rng.random() < 0.2
+    if nores: hist[-1] = ("SN",) + hist[-1][1:]          # the judged solve runs with store_residuals = false (no history kept)
     line = cc.case_line(cid, cls, opts, t, n, first_rows, vecs, hist, dump=0)
-    return dict(cid=cid, cls=cls, opts=opts, t=t, n=n, P=P, first_rows=first_rows, vecs=vecs, hist=hist, maxit=maxit, kop=kop,
+    return dict(cid=cid, cls=cls, opts=opts, t=t, n=n, P=P, first_rows=first_rows, vecs=vecs, hist=hist, maxit=maxit, kop=kop, nores=nores,
                 kind=kind, bkind=bkind, xkind=xkind, line=line)
 
 def ffloat(v):
@@ -151,6 +153,11 @@ def judge(ctx, c, res, model_lines):
         v = d.get(("XK", q))
         if v is None: complete = False; break
         iterates.append(v)
+    nores = c.get("nores", False) or (c["hist"] and c["hist"][-1][0] == "SN")
+    if nores:
+        ctx.count("store_residuals_off")
+        if rep: ctx.signal("O", sig0 + ":history", "store_residuals = false but a history of %d entries was kept" % len(rep), case=c["line"])
+        rep = [None] * (it + 1)
     if not complete or len(rep) != it + 1:
         ctx.signal("O", sig0 + ":incomplete", "iterates / residual history incomplete (iter %d, %d history entries)" % (it, len(rep)), case=c["line"]); return
     if it > maxit:
@@ -173,7 +180,7 @@ def judge(ctx, c, res, model_lines):
         ctx.count("converged")
         # the claim must at least agree with the solver's own last reported residual (no rounding slack involved: on nearly
         # singular coarse-already systems the iterates are huge and the recomputed residual carries a slack of its own size)
-        if not isinstance(rep[it], str) and ffloat(rep[it]) > tol * (1 + 1e-9):
+        if rep[it] is not None and not isinstance(rep[it], str) and ffloat(rep[it]) > tol * (1 + 1e-9):
             ctx.signal("O", "solve:truth:" + c["cls"], "solve returned %d < %d iterations although its own last reported residual %.6g is above the tolerance %.3g"
                        % (it, maxit, ffloat(rep[it]), tol), case=c["line"])
         if trues[it] is None:
@@ -184,12 +191,13 @@ def judge(ctx, c, res, model_lines):
                 sig = sig0.replace("solve:", "solve:truth:") + (":small_rhs" if c["bkind"] == "small" else "")
                 sig = "solve:truth:small_rhs" if c["bkind"] == "small" else "solve:truth:" + c["cls"]
                 ctx.signal("O", sig, "solve returned %d < %d iterations (reported %s) but the recomputed relative residual is %.6g > tol %.3g"
-                           % (it, maxit, rep[it] if isinstance(rep[it], str) else ffloat(rep[it]), tr, tol), case=c["line"])
+                           % (it, maxit, "no history kept" if rep[it] is None else (rep[it] if isinstance(rep[it], str) else ffloat(rep[it])), tr, tol), case=c["line"])
     else:
         ctx.count("hit_limit")
     # --- O: the reported history is the true history
     for kq in range(it + 1):
         r = rep[kq]
+        if r is None: break          # no history kept
         if trues[kq] is None:
             if not isinstance(r, str):
                 ctx.signal("O", sig0 + ":history:nonfinite", "iterate %d is not finite but the reported residual is %.6g" % (kq, ffloat(r)), case=c["line"]); break
@@ -205,7 +213,7 @@ def judge(ctx, c, res, model_lines):
             ctx.signal("O", sig, "reported residual %d is %.9g, recomputed %.9g (|b| = %.3g)" % (kq, ffloat(r), tr, bnorm), case=c["line"]); break
     if nontrivial: ctx.nontrivial.add(c["line"].split(" ", 1)[1][:2000])
     # --- K: the model of the wrapper on the library's iterates
-    if ctx.k_budget > 0 and n * (it + 1) <= 2500:
+    if ctx.k_budget > 0 and n * (it + 1) <= 2500 and not nores:
         ctx.k_budget -= 1
         toks = [cid, "slv", nums.tok_num(Fraction(tol).limit_denominator(10 ** 12) if c["cls"].startswith("par") else SEQ_TOL), str(maxit), str(n), str(len(c["t"]))]
         toks[2] = nums.tok_num(c["opts"]["tol"] if c["cls"].startswith("par") else SEQ_TOL)
@@ -287,7 +295,7 @@ def run(ctx):
 def replay_case(line):
     import C09
     c = C09.replay_case(line)
-    o = [h for h in c["hist"] if h[0] == "SI"]
+    o = [h for h in c["hist"] if h[0] in ("SI", "SN")]
     c["maxit"] = o[0][3] if o else 0
     c["kind"] = "replay"
     b = c["vecs"][1]
